@@ -39,6 +39,7 @@ type Op struct {
 	Recv  string `json:"recv,omitempty"`
 	Memo  string `json:"memo,omitempty"`
 	TO    int    `json:"to,omitempty"` // timeout: 0 = far future; n>0 = height now+n
+	TOS   int    `json:"tos,omitempty"` // timeout by timestamp: n>0 = block time now+n seconds (instead of a height)
 	Class string `json:"class,omitempty"`
 	// deliver / ack / timeout / batch
 	Ref  int    `json:"ref,omitempty"`
@@ -205,6 +206,8 @@ func (s *Sim) execSend(op Op) {
 	if op.TO > 0 {
 		th = clienttypes.NewHeight(0, uint64(s.N.Height+int64(op.TO)))
 		tt = 0
+	} else if op.TOS > 0 {
+		tt = uint64(s.N.Now().Add(time.Duration(op.TOS) * time.Second).UnixNano())
 	}
 	msg := transfertypes.NewMsgTransfer("transfer", chanB(op.Pair), sdk.NewCoin(denom, amt), u.Addr.String(), op.Recv, th, tt, op.Memo)
 	s.enqueue(&PendingTx{Signer: u, Gas: 3_000_000, Msgs: []sdk.Msg{msg}, Meta: &txMeta{OpID: op.ID, Kind: "send", Op: op, Class: op.Class}})
@@ -226,6 +229,8 @@ func (s *Sim) execSendOut(op Op) {
 	if op.TO > 0 {
 		th = clienttypes.NewHeight(0, uint64(s.N.Height+int64(op.TO)))
 		tt = 0
+	} else if op.TOS > 0 {
+		tt = uint64(s.N.Now().Add(time.Duration(op.TOS) * time.Second).UnixNano())
 	}
 	msg := transfertypes.NewMsgTransfer("transfer", chanA(op.Pair), sdk.NewCoin(op.Denom, amt), u.Addr.String(), op.Recv, th, tt, op.Memo)
 	s.enqueue(&PendingTx{Signer: u, Gas: 3_000_000, Msgs: []sdk.Msg{msg}, Meta: &txMeta{OpID: op.ID, Kind: "sendout", Op: op, Class: op.Class}})
